@@ -25,7 +25,7 @@ MANIFEST = {
                  "residuals, histogram counts, labels, legend; single-expression parts regenerated from the source by a "
                  "translator on every run) + vm_compute correspondence against the artists read back from the matplotlib axes "
                  "after savefig on the Agg backend + independent recomputation oracle",
-    "level_text": "Machine-checked theorems (C19_select, C19_linspace, C19_domain, C19_residuals, C19_hist, C19_labels, C19_order, "
+    "level_text": "Machine-checked theorems (C19_select, C19_linspace, C19_domain, C19_residuals, C19_hist, C19_hist_density, C19_hist_cumulative, C19_labels, C19_order, "
                   "C19_history, C19_sessions, C19_legend, C19_fit_curve_partial, closed under the global context) about the data the library "
                   "hands to matplotlib, for all data sets, functions, ranges, object lists, orders of adding (Permutation) and "
                   "histories of adding / switching / rendering (induction over call sequences; the x-range a rendering leaves "
